@@ -115,6 +115,9 @@ inductive Op where
   | revcompSeqs (names : List String)
   | diffFirst            -- DiffWithFirst
   | replaceMatch         -- ReplaceMatchChars
+  | mask (refseq : String) (start len : Int) (mr : MaskRep) (nogap noref : Bool)
+  /-- `MaskOccurences`; `MaskUnique(refseq, maskreplace)` is `maskOcc refseq 1 maskreplace` -/
+  | maskOcc (refseq : String) (maxOcc : Int) (mr : MaskRep)
 deriving Repr
 
 /-- the float threshold test of the cleaning functions: `cutoff = num/den` as `float64` -/
@@ -226,6 +229,16 @@ def stepOp (b : Bag) : Op → Bag × String
     match replaceMatchCharsBag b with
     | none => (b, "PANIC")
     | some r => (r, "ok")
+  | .mask refseq start len mr nogap noref =>
+    if !b.isAlign then (b, "na") else
+    match maskBag refseq start len mr nogap noref b with
+    | none => (b, "PANIC")
+    | some r => (r.1, if r.2 then "err" else "ok")
+  | .maskOcc refseq maxOcc mr =>
+    if !b.isAlign then (b, "na") else
+    match maskOccBag refseq maxOcc mr b with
+    | none => (b, "PANIC")
+    | some r => (r.1, if r.2 then "err" else "ok")
 
 /-- run a history, collecting the states after every step -/
 def runOps : Bag → List Op → List (Bag × String)
